@@ -155,7 +155,7 @@ pub fn classify_type(db: &Db, t: &Type, cur: &str) -> R<(Kind, bool, bool)> {
         Type::Path(p) => {
             let segs: Vec<String> = p.path.segments.iter().map(|s| s.ident.to_string()).collect();
             let last = segs.last().unwrap().as_str();
-            if segs.len() == 2 && segs[0] == "Self" && last == "Output" {
+            if segs.len() == 2 && segs[0] == "Self" && (last == "Output" || last == "RealField") {
                 return Ok((Kind::Struct(cur.to_string()), false, false));
             }
             match last {
@@ -291,6 +291,7 @@ fn scalar_method(name: &str, x: &str, args: &[Val]) -> Option<Val> {
         "atan2" => r(format!("atan2_r({x}, {})", a0()?)),
         "powf" => r(format!("powf_r({x}, {})", a0()?)),
         "powi" => r(format!("powi_r({x}, {})", a0()?)),
+        "is_finite" => Some(Val::Bool(format!("is_finite_r({x})"))),
         "is_zero" => Some(Val::Bool(format!("({x} == 0real)"))),
         "is_one" => Some(Val::Bool(format!("({x} == 1real)"))),
         "is_positive" => Some(Val::Bool(format!("is_positive_r({x})"))),
@@ -375,6 +376,8 @@ pub struct Ev<'a> {
     /// mirrors available (by mname) with their param lists / out parts
     pub sigs: &'a HashMap<String, Mirror>,
     memo: HashMap<(usize, Ix, Ix), String>,
+    /// evaluating a ComplexField / RealField method: field-trait methods take precedence for by-value receivers
+    pub field_ctx: bool,
 }
 
 #[derive(Clone, Copy, Debug, PartialEq)]
@@ -1123,7 +1126,8 @@ impl<'a> Ev<'a> {
                 if name == "clone" {
                     return Ok(Val::Struct(t, fs));
                 }
-                let f = self.db.find_method(&t, name).ok_or(format!("no method {t}::{name}"))?.clone();
+                let fm = if self.field_ctx && !is_ref(&recv) { self.db.find_field_method(&t, name) } else { None };
+                let f = fm.or_else(|| self.db.find_method(&t, name)).ok_or(format!("no method {t}::{name}"))?.clone();
                 let mut all = vec![Val::Struct(t, fs)];
                 all.extend(args);
                 self.call_func(&f, all)
@@ -1228,7 +1232,7 @@ fn outs_of(ev: &mut Ev, v: &Val, k: &Kind, prefix: &str, out: &mut Vec<(String, 
 pub fn mirror_of(db: &Db, f: &Func, sigs: &HashMap<String, Mirror>) -> R<Mirror> {
     let ps = params_of(db, f)?;
     let ret = ret_kind(db, f)?;
-    let mut ev = Ev { db, cur: f.ty.clone(), lets: vec![], scopes: vec![HashMap::new()], n: 0, depth_branch: 0, sigs, memo: HashMap::new() };
+    let mut ev = Ev { db, cur: f.ty.clone(), lets: vec![], scopes: vec![HashMap::new()], n: 0, depth_branch: 0, sigs, memo: HashMap::new(), field_ctx: !f.prefix.is_empty() };
     let mut params = vec![];
     let mut mutates_self = false;
     for p in &ps {
